@@ -20,6 +20,7 @@
  */
 
 #include "debug.h"
+#include "verif_hooks.h"
 
 #include <cstdlib>
 #include <cstdarg>
@@ -98,6 +99,10 @@ void DBGNone()
 
 void DBG(int level, const char* fmt, ...)
 {
+#ifdef BLOC_VERIF
+  if (verif_hooks.on_trace)
+    verif_hooks.on_trace();
+#endif
   if (level > debug_ctx.cur_level)
     return;
   va_list ap;
